@@ -125,13 +125,6 @@ func corpus(hostileNames []string, full bool) []corpIface {
 	add("Unnamed", false, []string{"int"}, p("", "int"), p("", "string"))
 	add("Blank", false, []string{"int"}, p("_", "int"), p("_", "string"))
 	add("UnnamedVar", true, []string{"int"}, p("", "int"), p("", "string"))
-	// hostile parameter names, with a type that differs from what the template's own local would hold
-	for i, n := range hostileNames {
-		safe := strings.NewReplacer("_", "u").Replace(n)
-		add(fmt.Sprintf("N%d_%s", i, safe), false, []string{"int", "error"}, p(n, "string"), p("z", "int"))
-		add(fmt.Sprintf("NB%d_%s", i, safe), false, []string{"bool", "error"}, p(n, "bool"))
-		add(fmt.Sprintf("NV%d_%s", i, safe), true, []string{"int", "error"}, p("a", "int"), p(n, "string"))
-	}
 	// group into interfaces of 3 methods
 	var out []corpIface
 	for i := 0; i < len(methods); i += 3 {
@@ -140,6 +133,22 @@ func corpus(hostileNames []string, full bool) []corpIface {
 			j = len(methods)
 		}
 		out = append(out, corpIface{Name: fmt.Sprintf("I%03d", i/3), Methods: methods[i:j]})
+	}
+	// hostile parameter names, with a type that differs from what the template's own local would hold;
+	// one interface per method, so that a mock that does not compile hides nothing else
+	methods = nil
+	for i, n := range hostileNames {
+		safe := strings.NewReplacer("_", "u").Replace(n)
+		add(fmt.Sprintf("N%d_%s", i, safe), false, []string{"int", "error"}, p(n, "string"), p("z", "int"))
+		add(fmt.Sprintf("NB%d_%s", i, safe), false, []string{"bool", "error"}, p(n, "bool"))
+		first := "a"
+		if n == "a" {
+			first = "q"
+		}
+		add(fmt.Sprintf("NV%d_%s", i, safe), true, []string{"int", "error"}, p(first, "int"), p(n, "string"))
+	}
+	for i := range methods {
+		out = append(out, corpIface{Name: fmt.Sprintf("I%03d", 500+i), Methods: methods[i : i+1]})
 	}
 	return out
 }
